@@ -437,8 +437,13 @@ class PLSSParser:
             # Discard the integer (first element in each 2-tuple), which would
             # only be used (elsewhere) with config setting 'sec_within'.
             for _, unused_bit in self.unused_components:
-                if len(unused_bit) >= self.MIN_REPORTABLE_UNUSED_LEN:
-                    flag_unused(unused_bit)
+                if len(unused_bit) < self.MIN_REPORTABLE_UNUSED_LEN:
+                    continue
+                if not cleanup_desc(unused_bit):
+                    # Nothing but punctuation and whitespace (e.g. a
+                    # comma and a blank line between two paragraphs).
+                    continue
+                flag_unused(unused_bit)
 
         if segment:
             chunker = PLSSChunker(self.text, layout=self.layout)
